@@ -219,6 +219,13 @@ def main(ctx):
                        "operands are restricted to quotients <= 2^52 and displacements <= 2^40 as the property states"]
     jobs = [{"prop": "C14", "seed": ctx.seed, "shard": s, "n": n} for s in range(nshards)]
     ctx.run_workers("vf.monitors.c14:shard", jobs)
+    # the same contract on the arithmetic real runs perform (sampled), at simulation times up to the configured ends
+    from vf.monitors import suite
+    rj = suite.jobs_for(ctx, ("C14",), ctx.pick(6, 40), ctx.pick(3000, 40000), ctx.pick(1500, 15000), ctx.pick(2500, 20000),
+                        shipped=["coulomb_atoms/power_bounded", "dipoles/dipole_motion", "water/coulomb_power_bounded_lj_inverted",
+                                 "hard_disk_dipoles/hard_disk_dipoles_cells", "coulomb_atoms/cell_bounded"])
+    suite.run_suite(ctx, ("C14",), rj, timeout=ctx.pick(900, 3000))
+    ctx.require("in_run_additions_checked", 2000)
     ctx.require("add_checked", 1000)
     ctx.require("add_with_carry", 100)
     ctx.require("add_large_quotient_small_dt", 50)
